@@ -16,6 +16,11 @@ def supply_rates(rng, ns, nu):
     out.append((f'gain {g:.2f}', np.block([[np.eye(ns) / g, np.zeros((ns, nu))], [np.zeros((nu, ns)), -g * np.eye(nu)]])))
     g2 = float(rng.uniform(0.4, 0.95))
     out.append((f'gain {g2:.2f} (<1)', np.block([[np.eye(ns) / g2, np.zeros((ns, nu))], [np.zeros((nu, ns)), -g2 * np.eye(nu)]])))
+    # a general cross term (any numbers of states and inputs, not a multiple of the identity)
+    X12 = np.round(rng.uniform(-0.6, 0.6, size=(ns, nu)), 2)
+    if not np.any(X12):
+        X12[0, 0] = 0.5
+    out.append(('cross term', np.block([[0.5 * np.eye(ns), X12], [X12.T, -2.0 * np.eye(nu)]])))
     if ns == nu:
         out.append(('passivity-like', np.block([[0.1 * np.eye(ns), -np.eye(ns)], [-np.eye(ns), -2.0 * np.eye(ns)]])))
         out.append(('passivity-like 2', np.block([[0.05 * np.eye(ns), -0.5 * np.eye(ns)], [-0.5 * np.eye(ns), -1.5 * np.eye(ns)]])))
@@ -97,6 +102,36 @@ def run(res, tier):
                 bad.append(dict(info, **desc, X=X.tolist()))
             if len(samples) < 3:
                 samples.append(desc)
+    # cross-term supply rates on data where the constraint is active, few iterations (the loop ends on max_iter, the
+    # returned P_ is the last problem-B solution): the certificate must hold for the REQUESTED supply rate
+    for h in range(10 if tier == 'quick' else 60):
+        ns = 1 + h % 2; nu = 1 + (h // 2) % 2
+        X, _, _ = lmi.linear_data(rng, ns, nu, kind=['unstable', 'marginal'][h % 2])
+        X12 = np.round(rng.uniform(-1.0, 1.0, size=(ns, nu)), 2)
+        if not np.any(X12):
+            X12[0, 0] = 0.7
+        Xi = np.block([[0.5 * np.eye(ns), X12], [X12.T, -float(rng.choice([1.5, 2.0, 3.0])) * np.eye(nu)]])
+        reg = L.LmiEdmdDissipativityConstr(alpha=0.0, supply_rate=Xi, max_iter=1 + h % 3, solver_params=lmi.SOLVER)
+        try:
+            reg.fit(X, n_inputs=nu, episode_feature=True)
+        except Exception:  # noqa
+            dist['fit_error'] = dist.get('fit_error', 0) + 1
+            continue
+        A, B = lmi.ab(reg, ns)
+        if not (np.any(A) or np.any(B)):
+            dist['cross_sweep_zero'] = dist.get('cross_sweep_zero', 0) + 1
+            continue
+        dist['cross_sweep'] = dist.get('cross_sweep', 0) + 1
+        P = np.asarray(reg.P_)
+        M = np.block([[P - Xi[:ns, :ns], -Xi[:ns, ns:], A.T @ P], [-Xi[:ns, ns:].T, -Xi[ns:, ns:], B.T @ P], [P @ A, P @ B, P]])
+        lam = float(np.min(np.linalg.eigvalsh((M + M.T) / 2)))
+        slack = lmi.simulate_dissipation(rng, A, B, (P + P.T) / 2, (Xi + Xi.T) / 2)
+        tolp = 1e-5 * max(1.0, float(np.max(np.abs(P))))
+        if lam < -tolp or slack < -tolp:
+            bad.append(dict(what='returned (U, P_) violates the dissipativity LMI / the dissipation inequality for the requested '
+                                 'supply rate (cross term, loop ended after %d iteration(s))' % int(reg.n_iter_), lambda_min=lam,
+                            slack=slack, Xi=Xi.tolist(), n_states=ns, n_inputs=nu, estimator=repr(reg),
+                            stop_reason=str(reg.stop_reason_), X=X.tolist()))
     # badly scaled data: the solver may fail numerically.  A fit that completes must still not silently return the
     # all-zero matrix when a strictly feasible model exists (a fit that raises is a refusal, not a result)
     for h in range(9 if tier == 'quick' else 36):
